@@ -101,7 +101,7 @@ prop('C01', COMMON +
      'type\'s completed definition. EVAL-ORDER: on no path of the source->HIR lowering is a later child (arguments, right '
      'operand, match arms, branches) lowered before the earlier one (callee, left operand, scrutinee, condition). '
      'RESOLVED-ORDINAL: every ordinal the checker resolves into the typed tree (field index, variant tag) is read by the '
-     'source->HIR lowering. TYPE-WALKER: type rewriters of the compiler visit every child position. Does '
+     'source->HIR lowering. GUARDED-OPERAND: the statements of an operand the lowering guards by another operand\'s value (`&&`, `||`) reach the output only inside the guarded branch or behind a literal test of the guard. TYPE-WALKER: type rewriters of the compiler visit every child position. Does '
      'not decide that a visited operand is lowered correctly.',
      [enum_evidence.run, eval_order.run, eval_order.run_resolved_ordinal, eval_order.run_guarded_operand, backend.run_str_predicates, backend.run_entry_output_fresh, type_walker.make(('samlang_compiler',), 3), TI.make(['T-hir', 'T-mir_generics_specialization', 'T-mir_type_deduplication', 'T-mir_constant_param_elimination',
                'T-lir_lowering', 'T-lune', 'T-wasm'])])
@@ -119,7 +119,7 @@ prop('C02', COMMON +
      'descent into a nested statement list is bracketed by the same contexts as its sibling descents. COUNTER-SYNC: '
      'every temp-name counter is synchronised back into the heap on every path before the next one is created. GUARD-TABLE: '
      'the loop optimiser\'s operator tables (guard extraction, negation, rebuild) are evaluated from MIR for every input and '
-     'compared with integer order logic. '
+     'compared with integer order logic. BRANCH-PAIR-EMPTY: an emptiness test of one branch list of an IfElse comes with a test of the sibling list. '
      'Does not decide loop closed forms, LICM legality, inlining capture-avoidance or escape analysis.',
      [const_arith.run, optimizer.run_dce_keep, optimizer.run_fold_table, optimizer.run_swap_table, optimizer.run_branch_pair, guard_table.run, traversal.run_tuple_components, scope.run_bracket, scope.run_counter_sync,
       TI.make(['T-dce', 'T-conditional_constant_propagation', 'T-inlining', 'T-local_value_numbering',
@@ -154,7 +154,7 @@ prop('C08', COMMON +
      'child printed in an undelimited position (unary operand, binary operands, lambda body, chain base) reaches the '
      'precedence decider; the plain printer may take a left operand only behind an equal-precedence test and a right operand '
      'only behind same-operator + associative-operator tests (reported as the known regrouping finding). TYPE-WALKER: the '
-     'annotation printer visits every child position. Does not decide layout.',
+     'annotation printer visits every child position. PLAIN-POSITION: a child the printer emits without a parenthesis decision is parsed with the top production of the expression grammar (productions ordered by fall-through). PAREN-UNARY-LEVEL, LIST-END-TOKEN, LITERAL-SOURCE as described in DESIGN.md. Does not decide layout.',
      [printer_rules.run_prec_iso, printer_rules.run_literal_parity, printer_rules.run_paren_assoc, printer_rules.run_paren_sink, printer_rules.run_paren_unary_level, printer_rules.run_plain_position, printer_rules.run_pattern_parens, shape.run_literal_source, parser_progress.run_list_end_token, type_walker.make(('samlang_printer',), 1), TI.make(['T-prt'])])
 
 prop('C09', COMMON +
@@ -170,7 +170,7 @@ prop('C09', COMMON +
      'by the constant hard line break in the sequence it is emitted into. TRAVERSAL/SIBLING(T-prc): the printer reads every comment-reference slot. '
      'COMMENT-REF-UNIQUE: a comment reference read out of a node is not stored in a second node while the first is kept. '
      'NODE-LEADING-COMMENTS: a node handed to a printer function that does not print the node\'s leading comments has that slot read by the function handing it over, '
-     'the functions it calls or its callers (per hand-over, not only once per slot). Does not decide '
+     'the functions it calls or its callers (per hand-over, not only once per slot). CHILD-EXPR-COMMENTS: a sub-expression handed to a printer that does not cover its argument on every path has its leading comments read by the function handing it over. Does not decide '
      'idempotence of the layout nor that a stored comment is printed in the right place.',
      [comment_linear.run, comment_linear.run_fresh_reference, comment_linear.run_comment_order, comment_linear.run_comment_ref_unique, printer_rules.run_id_comment_pair, printer_rules.run_line_comment_break, printer_rules.run_element_comments, node_comments.run, node_comments.run_child_expr, TI.make(['T-prc'])])
 
@@ -194,7 +194,7 @@ prop('C15', COMMON +
      'fields of the checker\'s SsaAnalysisResult, which is only obtained from perform_ssa_analysis_on_module (no second '
      'scope resolver). NAV-VIA-SSA: every path of a navigation query that handles a local-name hit passes through the SSA '
      'lookup. LOC-GUARD: a cursor-position test gating the descent into a child tests a location of that child or of a node '
-     'containing it (sibling locations only where the parser provably widens them). Does not decide capture-freedom of the new name or behavioural identity after rename.',
+     'containing it (sibling locations only where the parser provably widens them). RENAME-RELEVANCE: the unconditional rewrite of a variable occurrence is reached only behind a range test of the expression (or for the single child of a binder-free node). IDENT-ALPHABET keyword-gate: the new name is read back by the parser before a renaming is applied. Does not decide capture-freedom of the new name or behavioural identity after rename.',
      [ssa_shared.run, ssa_shared.run_nav_via_ssa, ssa_shared.run_ident_alphabet, printer_rules.run_pattern_parens, loc_guard.run, loc_guard.run_rename_relevance, scope.run_iflet_else, TI.make(['T-ren', 'T-ssa'])])
 
 # properties whose reports on the unchanged tree are not yet triaged are not claimed
@@ -209,7 +209,7 @@ prop('C12', COMMON +
      'into vectors/strings, aggregates and function results to the arguments of the 87 ErrorSet::report_* / '
      'StackableError::add_* call sites; sorting, min/max/count/any/all and collecting into a hash or B-tree collection '
      'remove the taint. COUNTER-SYNC (shared with C02): every temp-name counter handed to the parallel optimiser is '
-     'synchronised back on every path. Does not decide that programs emitted under different module enumeration orders or '
+     'synchronised back on every path. INTERN-ORDER: before the diagnostics of a compilation are rendered no string is interned in hash-iteration order (long identifiers are ordered by interning index). Does not decide that programs emitted under different module enumeration orders or '
      'thread counts behave the same (synthetic numbering follows hash order by design).',
      [order_taint.run, order_taint.run_intern_order, scope.run_counter_sync],
      ['ErrorSet keeps its errors in an ordered set (BTreeSet) and renders them in that order'])
@@ -223,7 +223,7 @@ prop('C14', COMMON +
      'consumed in source order. Clause "for a name the position covers exactly its characters": NAME-LOC-PAIR - every Id '
      'node takes loc and name from the same token; RESULT-LOC-IS-NAME - name-carrying results of the cursor search report Id.loc; '
      'CURSOR-LOC-FRESH - the parser cursor\'s last_location (moved over skipped comments by every peek) is read for a node '
-     'location only directly after a token was consumed. Does not decide the lexer\'s line/column bookkeeping, that positions lie '
+     'location only directly after a token was consumed; POSITION-FROM-TOKENS - above the character-level lexer no position is built by arithmetic; LOC-ENCLOSES siblings - a child built in the constructing function does not enclose a sibling. Does not decide the lexer\'s line/column bookkeeping, that positions lie '
      'inside the document, or that siblings do not overlap.',
      [loc_enclose.run, loc_enclose.run_name_loc_pair, loc_enclose.run_result_loc, loc_enclose.run_cursor_loc_fresh, loc_enclose.run_position_from_tokens],
      ['tokens are consumed in source order and the lexer assigns increasing positions (C05 LEX-BOUNDS side)'])
@@ -238,7 +238,7 @@ prop('C17', COMMON +
      'insert); a marker sets the bit for every heap handle whose slot is Temporary (mark-total). SWEEP-WINDOW: zone abstract '
      'interpretation of the sweeper with variables for the cursor field and the table length: the swept range starts at the '
      'cursor found on entry and the cursor is left at its end (or 0 at the table end), so consecutive windows tile the table. '
-     'Does not decide the interleaving argument itself (that marking completes between cursor wraps).',
+     'PER-ELEMENT-TOTAL: loops that make strings permanent or mark them walk their whole collection. PSTR-TAG discriminator: no decision from the raw handle word other than the tag comparison. INTERN-DISCIPLINE permanent-entry: a text entered into the permanent intern map has its slot made permanent on every path. Does not decide the interleaving argument itself (that marking completes between cursor wraps).',
      [heap.run_tag, heap.run_dealloc, heap.run_unintern, heap.run_monotone, heap.run_intern, heap.run_unmarked_set, heap.run_per_element_total, sweep_window.run,
       witness.run_for(['WHeap'], 'C17: handles cannot be forged and heap internals cannot be touched outside the crate (compile-fail witnesses)')],
      ['the marker marks every live string before the unmarked-module set becomes empty (C11 side, T-gc)'])
@@ -251,7 +251,7 @@ prop('C10', COMMON +
      'global_cx mutated under the same keys), ERRORS-OVERWRITE (recheck re-reports the previous syntax errors before '
      'overwriting errors[m]), DIRTY-COVERS (the dirty set handed to affected_set is built from every request component '
      'under which parsed_modules is mutated; every module announced to recheck as re-parsed is parsed on every path). '
-     'Does not decide that the affected set is large enough (graph semantics).',
+     'UPDATE-ORDER affected-set: a mutator that never removes sources computes the re-check set on the rebuilt graph. ERRORS-OVERWRITE clear: every rechecked module gets its errors entry overwritten. GC-ROOTS gc-requeue: the module list is queued for marking on every path. Does not decide that the affected set is large enough (graph semantics).',
      [incremental.run_sigkey, incremental.run_order, incremental.run_errors, incremental.run_dirty, incremental.run_sig_all, gc_rules.run_gc_roots],
      ['affected_set (forward closure of the reverse closure of the dirty set) contains every module whose diagnostics can change'])
 
@@ -293,7 +293,7 @@ prop('C05', COMMON +
      'dominated by recording a type for the identifier (get_captured unwraps it). PARSER-PROGRESS: clause "loops forever" for the '
      'parser - an interprocedural must-consume analysis over 75 token classes (summaries per production, specialised on constant '
      'keyword/operator arguments) shows that every trip through each of the parser\'s token-driven loops consumes a token. GATE: '
-     'parse errors land in the error set the compile entry point tests. Does not decide unbounded recursion or stack depth.',
+     'parse errors land in the error set the compile entry point tests. SAVE-CALL-RESTORE: the parser\'s type-parameter scope saved before a member is restored on every path after it. Does not decide unbounded recursion or stack depth.',
      [lex_bounds.run, lex_bounds.run_int_range, shape.run_fabricate, shape.run_shape, str_slice.run, gate.run_binder_write, parser_progress.run, gate.run_gate, scope.run_save_call_restore],
      ['lengths of in-memory slices are < 2^63 (usize additions on lengths do not overflow)',
       'A-05.1: parenthesised lists reaching a Tuple construction are non-empty'])
